@@ -83,7 +83,7 @@ theorem nsNs_eq (c : Cfg) (op : BinOp) (l2 : List Bytes) :
     rw [h, ih]
     cases hx : (l2.any fun y => Spec.cmpAtom c op (.str sv : Opnd N) (.str y)) <;> simp
 
-/-- node-set compared with a boolean: the one cell of the table where `moveto_op_comp` is not the REC (finding F56) -/
+/-- node-set compared with a boolean: the one cell of the table where `moveto_op_comp` is not the REC (finding F256) -/
 def NsBoolPair : Opnd N → Opnd N → Prop
   | .ns _, .bool _ => True
   | .bool _, .ns _ => True
